@@ -1,5 +1,9 @@
 """C20: rate meters report the counter's growth over the last full window (spec/kxps/Kxps.tla)."""
+import json
 import os
+import re
+
+from lib import vlib
 
 DEVIATIONS = [  # (cfg suffix, property that must be reported violated)
     ("window_gt", "WindowRule"),
@@ -11,13 +15,91 @@ DEVIATIONS = [  # (cfg suffix, property that must be reported violated)
 ]
 
 
+def actions_covered(info, actions=("Observe", "Start", "ReadRate")):
+    """-coverage 1 log: every action of Next must have been taken (a check that exercised nothing is broken)."""
+    last = {}
+    for line in open(info["log"]):
+        m = re.match(r"<(\w+) line .* of module Kxps.*>: (\d+):(\d+)", line)
+        if m:
+            last[m.group(1)] = int(m.group(3))
+    dead = [a for a in actions if not last.get(a)]
+    if dead:
+        raise vlib.Broken("vacuous MC run %s: action(s) %s never taken (log %s)" % (info["name"], dead, info["log"]))
+    return {a: last[a] for a in actions}
+
+
+def case_classes(path, limit=200000):
+    """Which situations the generated behaviours contain (vacuity guard for GEN); scans the first `limit` cases."""
+    seen = {}
+
+    def hit(k):
+        seen[k] = seen.get(k, 0) + 1
+    with open(path) as f:
+        for n, line in enumerate(f):
+            if n >= limit:
+                break
+            c = json.loads(line)
+            for e in c["h"]:
+                if e[0] == 1:
+                    hit("start")
+                    continue
+                hit("read-started" if e[1] else "read-refused")
+                if e[5] == 0:
+                    hit("zero-counter")
+                for w in range(3):
+                    fl, nn, aa = e[7 + w], e[10 + w], e[13 + w]
+                    if fl == 1:
+                        hit("w%d-samples" % w)
+                        hit("w%d-growth" % w if nn > 0 and nn == aa else "w%d-zero" % w if nn == 0 and aa == 0 else "w%d-sign-boundary" % w)
+                    elif fl == 2:
+                        hit("w%d-not-consulted" % w)
+                    else:
+                        hit("w%d-holds" % w)
+                if e[17] > 0:
+                    hit("avg-growth" if e[16] > 0 and e[16] == e[18] else "avg-zero" if e[16] == 0 and e[18] == 0 else "avg-sign-boundary")
+                else:
+                    hit("avg-no-time")
+    need = ["start", "read-started", "read-refused", "zero-counter", "avg-growth", "avg-zero", "avg-sign-boundary", "avg-no-time",
+            "w1-not-consulted", "w2-not-consulted"]
+    for w in range(3):
+        need += ["w%d-samples" % w, "w%d-growth" % w, "w%d-zero" % w, "w%d-sign-boundary" % w, "w%d-holds" % w]
+    missing = [k for k in need if not seen.get(k)]
+    if missing:
+        raise vlib.Broken("generated behaviours never contain: %s" % missing)
+    return seen
+
+
+def binding_selftest(ctx, cases):
+    """Corrupt one expected value of one behaviour: the replayer must reject it (guards against a replayer that compares nothing)."""
+    picked = None
+    with open(cases) as f:
+        for line in f:
+            c = json.loads(line)
+            for e in c["h"]:
+                if e[0] == 0 and e[7] == 1 and e[10] > 0 and e[10] == e[13]:
+                    e[10] += 1000
+                    e[13] += 1000
+                    picked = c
+                    break
+            if picked:
+                break
+    if not picked:
+        raise vlib.Broken("self-test: no behaviour with a sampling 10 s window")
+    path = os.path.join(ctx.out, "selftest.ndjson")
+    with open(path, "w") as f:
+        f.write(json.dumps(picked) + "\n")
+    r = ctx.replay("kxps", path)
+    if r[0]["ok"] or "10s window sampled" not in r[0].get("what", ""):
+        raise vlib.Broken("self-test: a behaviour with a corrupted expected rate was not rejected: %r" % r[0])
+
+
 def run(ctx):
     quick = ctx.tier == "quick"
     ctx.rule = ("a case is one behaviour of the meter specification (Start + a sequence of (dt, counter move) observations, "
                 "dt in {0,1,5000,9999,10000,11000,30000,301000} ms, moves {+0,+1,+1000,-5,:=0,:=2^16-2,+2^15} on a 16-bit model counter) "
                 "with the expected three rates and the average after every observation; TLC enumerates every behaviour of the "
                 "time family (17 letters, depth %d), the counter family (21 letters, depth %d) and the public-API family "
-                "(4 letters, depth 3, Start at any position)%s; each is replayed 4 times (hook + identity counter, hook + counter x 2^48, "
+                "(4 letters, depth 3, Start at any position)%s; MC: time alphabet (24 letters) and wrap alphabet (28/35 letters) to depth 4/3 (quick) or 5/4 (thorough); each behaviour is replayed 4 times (hook + identity counter, hook + counter x 2^48, "
                 "public Kbps, public Krps); distinct = distinct behaviours"
                 % ((4, 3, "") if quick else (5, 4, ", plus seeded simulation of 5000 behaviours of 40 observations over the full 56-letter product")))
     ctx.exhaustive = True
@@ -40,8 +122,15 @@ def run(ctx):
     ctx.sany("kxps", "Kxps")
     ctx.sany("kxps", "Gen_Kxps")
     # MC: the property holds on the specification, all behaviours within the bounds (two factored alphabets)
-    ctx.tlc("kxps", "MC_Kxps", "MC_Kxps_time.%s.cfg" % ctx.tier, coverage=not quick, timeout=800)
-    ctx.tlc("kxps", "MC_Kxps", "MC_Kxps_wrap.%s.cfg" % ctx.tier, coverage=not quick, timeout=800)
+    ctx.tlc("kxps", "MC_Kxps", "MC_Kxps_time.%s.cfg" % ctx.tier, timeout=800)
+    ctx.tlc("kxps", "MC_Kxps", "MC_Kxps_wrap.%s.cfg" % ctx.tier, timeout=800)
+    if not quick:
+        # action coverage, measured on the small configurations (-coverage slows the large ones fourfold)
+        cov = {}
+        for fam in ("time", "wrap"):
+            info = ctx.tlc("kxps", "MC_Kxps", "MC_Kxps_%s.quick.cfg" % fam, name="MC_Kxps.coverage_%s" % fam, coverage=True, count_states=False)
+            cov[fam] = actions_covered(info)
+        ctx.notes["mc_action_coverage"] = cov
     # non-vacuity: each named deviation is caught by the invariant / action property that states the clause it breaks
     for dev, inv in DEVIATIONS:
         ctx.tlc("kxps", "MC_Kxps", "MC_Kxps_dev_%s.cfg" % dev, expect_violation=inv, count_states=False, workers=1)
@@ -52,5 +141,7 @@ def run(ctx):
     ctx.tlc("kxps", "Gen_Kxps", "Gen_Kxps_time.%s.cfg" % ctx.tier, cases_to=cases, count_states=False, timeout=800)
     if not quick:
         ctx.tlc("kxps", "Gen_Kxps", "Gen_Kxps_sim.cfg", cases_to=cases, simulate=5000, depth=42, count_states=False, timeout=800)
+    ctx.notes["case_classes"] = case_classes(cases)
+    binding_selftest(ctx, cases)
     res = ctx.replay("kxps", cases)
     ctx.judge("kxps", cases, res)
